@@ -440,6 +440,10 @@ class Frame:
                 return ("c", v, k.get("def") if self.ev.names else None)
             if "s" in k:
                 return ("cs", k["s"])
+            if "range" in k:
+                # a constant `a..b` / `a..=b` (promoted): the same term an inline Range aggregate gives
+                path = "core::ops::range::RangeInclusive" if k.get("incl") else "core::ops::range::Range"
+                return ("adt", path, path.rsplit("::", 1)[-1], (("start", ("c", int(k["range"][0]), None)), ("end", ("c", int(k["range"][1]), None))))
             if "fn" in k:
                 return ("cfn", k["fn"])
             if k.get("ty") == "()":
